@@ -112,7 +112,12 @@ def run_case(ctx, rng, idx):
                                ("node_connected_component(0)", call(lambda: len(hb.node_connected_component(0))), m_ + 1),
                                ("node_connected_component(5000)", call(lambda: len(hb.node_connected_component(5000))), m_ + 1),
                                ("isolated_nodes", call(lambda: sorted(hb.isolated_nodes())), [9000]),
-                               ("degree(block member)", call(hb.degree, 3), 1), ("degree(attachment)", call(hb.degree, m_ - 1), 2)):
+                               ("degree(block member)", call(hb.degree, 3), 1), ("degree(attachment)", call(hb.degree, m_ - 1), 2),
+                               ("num_connected_components(size=1500)", call(hb.num_connected_components, size=m_), 5),
+                               ("largest_component_size(order=1499)", call(hb.largest_component_size, order=m_ - 1), m_),
+                               ("node_connected_component(0, size=1500)", call(lambda: len(hb.node_connected_component(0, size=m_))), m_),
+                               ("degree(block member, size=1500)", call(hb.degree, 3, size=m_), 1),
+                               ("num_connected_components(size=2)", call(hb.num_connected_components, size=2), m_ + 2)):
             ctx.check("C08:components", not isinstance(got, _Raised) and got == exp, f"C08:{name}:1500-node-block", lambda: {"query": name, "got": repr(got)[:200], "expected": exp})
         ctx.distinct_add(("block", m_))
         return
